@@ -40,6 +40,6 @@ LemmasHold == Chosen =>
 \* the data the implementation is run on: the instance re-parametrised by tr
 DT == IF tr = NoTr THEN D ELSE Affine(D, tr.v, tr.a, tr.b)
 Emit == Chosen => LET F == RForm(D, sel.X, sel.Y, sel.Z) IN
-    PrintT(ToJson([inst |-> Insts[di].id, X |-> sel.X, Y |-> sel.Y, Z |-> sel.Z, tr |-> tr, F |-> F, pk |-> RKind(F),
+    PrintT(ToJson([inst |-> Insts[di].id, X |-> sel.X, Y |-> sel.Y, Z |-> sel.Z, tr |-> tr, F |-> F, pk |-> RKind(D, sel.X, sel.Y, sel.Z),
                    dev |-> IF DevDefined(DT, sel.X, sel.Y, sel.Z) THEN DevRForm(DT, sel.X, sel.Y, sel.Z) ELSE [n |-> 0]]))
 =============================================================================
